@@ -83,7 +83,7 @@ def explore(run, binp):
     cfgk = dict(ext=EXT[pid], univ=UNIV[pid], extra="INVARIANT KeysKept\n" if pid == "C15" else "")
     # ---- 1. MC: the cursor model produces the list semantics on every tree of the bound
     for c in mcs:
-        r = run_tlc(MOD[pid] + "MC", MC_CFG % dict(cfgk, **c), timeout=2400, heap="12g")
+        r = run_tlc(MOD[pid] + "MC", MC_CFG % dict(cfgk, **c), timeout=2400, heap="8g")
         run.add_mc(MOD[pid] + "MC", r, c)
         if r.violated:
             raise Infra("model error: %sMC violates %s with %s (the cursor model no longer yields the list semantics)"
@@ -92,7 +92,7 @@ def explore(run, binp):
     with Scratch() as d:
         # ---- 2. GEN + replay on the real iterators
         for gi, c in enumerate(gens):
-            r = run_tlc(MOD[pid] + "Gen", GEN_CFG % dict(cfgk, **c), timeout=2400, heap="12g", args=["-seed", str(run.seed)])
+            r = run_tlc(MOD[pid] + "Gen", GEN_CFG % dict(cfgk, **c), timeout=2400, heap="8g", args=["-seed", str(run.seed)])
             if r.violated:
                 raise Infra("%sGen stopped: %s" % (MOD[pid], r.out[-1500:]))
             cases = r.json_prints("case")
@@ -199,7 +199,7 @@ def judge_traces(run, traces, d, tag):
     tf = os.path.join(d, "batch_%s.json" % tag)
     with open(tf, "w") as f:
         json.dump({"traces": judged}, f)
-    r = run_tlc(MOD[pid] + "Trace", TRACE_CFG % dict(ext=EXT[pid]), env={"TRACE_FILE": tf}, timeout=2400, heap="12g")
+    r = run_tlc(MOD[pid] + "Trace", TRACE_CFG % dict(ext=EXT[pid]), env={"TRACE_FILE": tf}, timeout=2400, heap="8g")
     if r.violated:
         raise Infra("%sTrace stopped: %s" % (MOD[pid], r.out[-2000:]))
     done, ndrift, per_pred = set(), 0, {}
